@@ -145,9 +145,36 @@ static size_t shorten(size_t n, int fd)
 }
 static int want_eintr(int fd) { return eintr_on && short_on && fd != 2 && fd != log_fd && rnd(5) == 0; }
 
+/* VP_READ_SCRIPT="<abs path>|k1,k2,E,..." : successive read() calls on that file return at most k_i bytes / EINTR */
+static char script_path[4096];
+static const char *script_pos;
+static int script_match(int fd)
+{
+	static int parsed;
+	if (!parsed) {
+		const char *v = getenv("VP_READ_SCRIPT");
+		parsed = 1;
+		if (v) { const char *bar = strchr(v, '|'); if (bar && (size_t)(bar - v) < sizeof script_path) { memcpy(script_path, v, bar - v); script_pos = bar + 1; } }
+	}
+	if (!script_pos || !*script_pos || fd <= 2) return 0;
+	char link[64], buf[4096];
+	snprintf(link, sizeof link, "/proc/self/fd/%d", fd);
+	ssize_t n = readlink(link, buf, sizeof buf - 1);
+	if (n <= 0) return 0;
+	buf[n] = 0;
+	return strcmp(buf, script_path) == 0;
+}
+
 ssize_t read(int fd, void *b, size_t n)
 {
 	init();
+	if (script_match(fd)) {
+		if (*script_pos == 'E') { script_pos += (script_pos[1] == ',') ? 2 : 1; errno = EINTR; return -1; }
+		char *end; long k = strtol(script_pos, &end, 10);
+		script_pos = (*end == ',') ? end + 1 : end;
+		if (k > 0 && (size_t)k < n) n = (size_t)k;
+		return r_read(fd, b, n);
+	}
 	if (class_gate('r', fd)) return -1;
 	if (want_eintr(fd)) { errno = EINTR; return -1; }
 	ssize_t r = r_read(fd, b, shorten(n, fd));
